@@ -107,6 +107,11 @@ impl Clone for WakerQueue {
 #[verifier::external_body]
 #[derive(Clone, Copy)]
 pub struct ServerWorkerConfig { _p: () }
+impl ServerWorkerConfig {
+    /// `impl Default for ServerWorkerConfig` (unit worker_handles): SOME configuration — not the builder's
+    #[verifier::external_body]
+    pub fn default() -> (r: ServerWorkerConfig) { unimplemented!() }
+}
 #[verifier::external_body]
 pub struct BoxedFactory { _p: () }
 impl BoxedFactory {
@@ -121,8 +126,13 @@ impl ServerWorker {
     pub fn start(idx: usize, factories: Vec<BoxedFactory>, waker_queue: WakerQueue, config: ServerWorkerConfig)
         -> (r: Result<(WorkerHandleAccept, WorkerHandleServer), IoError>)
         ensures r matches Ok(p) ==> p.0.idx == idx && p.1.idx == idx, (r is Ok) == start_succeeds(idx),
+            start_config(idx) == config, start_nfactories(idx) == factories@.len(),
     { unimplemented!() }
 }
+/// PROPHECY names: the configuration / the number of service factories the (one) ServerWorker::start of worker `idx`
+/// made during the verified call is given
+pub uninterp spec fn start_config(idx: usize) -> ServerWorkerConfig;
+pub uninterp spec fn start_nfactories(idx: usize) -> nat;
 /// PROPHECY name: whether the (one) ServerWorker::start of worker `idx` made during the verified call succeeds
 pub uninterp spec fn start_succeeds(idx: usize) -> bool;
 
@@ -408,6 +418,9 @@ let mut r9_out: Vec<(usize, MioListener)> = Vec::new();
         // system-stop as configured   [C06,C08]
         r matches Ok(p) ==> p.0.wf() && !p.0.stopping && p.0.system_stop == builder.exit,
         r matches Ok(p) ==> (p.1.signal_fut is Some) == builder.listen_os_signals,   // [C06] signals are listened to unless disabled
+        // what a restart will use is what the builder was configured with: the worker configuration (shutdown timeout,
+        // connection limit) and every service factory   [C06,C08]
+        r matches Ok(p) ==> p.0.worker_config == builder.worker_config && p.0.services@ == builder.factories@,   // [C06,C08]
 //@loop head="while r9_q.len() > 0"
         invariant
             r9_out@.len() + r9_q@.len() == all.len(), r9_q@ == all.subrange(r9_out@.len() as int, all.len() as int),
@@ -461,6 +474,10 @@ this.handle_cmd__awaited(cmd);
             else { final(self).waker_queue.sent().len() == old(self).waker_queue.sent().len() + 1
                 && final(self).waker_queue.sent().drop_last() == old(self).waker_queue.sent()
                 && (final(self).waker_queue.sent().last() matches WakerInterest::Worker(h) && h.idx == i) }),
+        // the replacement is started with the server's worker configuration and one factory per service; neither changes   [C06,C08]
+        item matches ServerCommand::WorkerFaulted(i) ==> start_config(i) == old(self).worker_config   // [C06,C08]
+            && start_nfactories(i) == old(self).services@.len(),
+        final(self).worker_config == old(self).worker_config && final(self).services@ == old(self).services@,   // [C08]
 //@replace pattern="let mut r9_out = Vec::new(); let mut r9_n: usize = 0; while r9_n < self.worker_handles.len()" rule=R9l
 let mut r9_out: Vec<oneshot::Receiver<bool>> = Vec::new(); let mut r9_n: usize = 0; while r9_n < self.worker_handles.len()
 //@replace pattern="let mut r9_out = Vec::new(); let mut r9_n: usize = 0; while r9_n < self.services.len()" rule=R9m
@@ -493,7 +510,7 @@ let mut r9_out: Vec<BoxedFactory> = Vec::new(); let mut r9_n: usize = 0; while r
             !r9_any ==> forall|k: int| 0 <= k < r9_k ==> (#[trigger] self.worker_handles@[k]).idx != idx,
         decreases self.worker_handles@.len() - r9_k,
 //@loop head="while r9_n < self.services.len()"
-        invariant r9_n <= self.services@.len(),
+        invariant r9_n <= self.services@.len(), r9_out@.len() == r9_n,
         decreases self.services@.len() - r9_n,
 //@loop head="while r9_k < self.worker_handles.len() && !r9_found"
         invariant
